@@ -1684,10 +1684,11 @@ impl StorageEngine {
         } else {
             // Create new hash
             let mut hash = HashMap::new();
-            let len = field_values.len();
             for (field, value) in field_values {
                 hash.insert(field, value);
             }
+            // number of fields created: a field repeated in the command counts once
+            let len = hash.len();
             
             let stored_value = StoredValue::new(Value::Hash(hash));
             shard_guard.data.insert(key.clone(), stored_value);
